@@ -77,6 +77,9 @@ class Observer:
         files = tree_files(top)
         finals = [f for f in files if os.path.basename(f).startswith("rf@") and f.endswith(".h5")]
         union = {}
+        sane = None
+        if allowed:
+            sane = (min(allowed) - 10000, max(allowed) + 10000)
         for rel in finals:
             p = os.path.join(top, rel)
             h = sha(p)
@@ -101,6 +104,8 @@ class Observer:
                 elif not (cfg.unchunked() and rf.rows_equal_fill(cfg, row)):
                     errs.append(({"class": "final_file_unwritten_sample"}, "%s: %s presents index %d which was not written" % (label, rel, k)))
                     break
+            if sane is not None and any(not (sane[0] <= k <= sane[1]) for k in content):
+                continue  # garbage indices were reported above; do not send the reader over an astronomic range
             union.update(content)
         for rel in self.first_sha:
             if rel not in finals:
